@@ -106,6 +106,20 @@ class Lambda:
     mi: ModuleInfo
 
 
+class PassThrough(Exception):
+    """Raised by abstract-domain objects (sa/absio.py); travels through the interpreter unchanged."""
+
+
+class EnumMember:
+    """A member of an enum class of the repository (only with Interp.concrete_enums)."""
+
+    def __init__(self, cls: ClassInfo, name: str, value):
+        self.cls, self.name, self.value = cls, name, value
+
+    def __repr__(self):
+        return f'{self.cls.name}.{self.name}'
+
+
 class ReturnSignal(Exception):
     def __init__(self, value):
         self.value = value
@@ -168,6 +182,9 @@ class Interp:
         self.param_dims: dict[str, str] = {}
         self.objects: dict[int, SVar] = {}
         self._decided: dict = {}
+        self.concrete_enums = False
+        self.yielded: list = []
+        self._enum_cache: dict = {}
 
     # ------------------------------------------------------------------
     # path enumeration
@@ -315,7 +332,19 @@ class Interp:
 
     def st_ImportFrom(self, st, env, mi):
         for a in st.names:
-            env[a.asname or a.name] = Opaque(f'local import {a.name}')
+            val = Opaque(f'local import {a.name}')
+            if st.level:
+                cur = self.call_stack[-1].module if self.call_stack else mi.name
+                cmi = self.repo.module(cur)
+                parts = cur.split('.') if cur else []
+                if not cmi.path.endswith('__init__.py'):
+                    parts = parts[:-1]
+                base = parts[: len(parts) - (st.level - 1)]
+                dotted = '.'.join(base + (st.module.split('.') if st.module else []))
+                r = self.repo.resolve_rel(dotted, a.name)
+                if r is not None:
+                    val = self.resolved(r, a.name)
+            env[a.asname or a.name] = val
 
     def st_Return(self, st, env, mi):
         raise ReturnSignal(self.eval(st.value, env, mi) if st.value is not None else None)
@@ -410,6 +439,8 @@ class Interp:
                 base = obj.recv if isinstance(obj, BoundModel) else None
                 if isinstance(base, SVar):
                     self.mutate(base, t, f'store into .{obj.name}[...]')
+            elif hasattr(obj, '__setitem__') and not isinstance(obj, dict | list):
+                obj[key] = val
         else:
             raise AnalysisError(f'assignment target {type(t).__name__} at {self.where(t)}')
 
@@ -501,6 +532,70 @@ class Interp:
             if item.optional_vars is not None:
                 self.assign(item.optional_vars, v, env, mi)
         self.exec_body(st.body, env, mi)
+
+    def st_Match(self, st, env, mi):
+        subject = self.eval(st.subject, env, mi)
+        for case in st.cases:
+            binds: dict = {}
+            m = self.match_pattern(case.pattern, subject, binds, env, mi)
+            if m is None:
+                raise AnalysisError(f'match on an abstract value at {self.where(st)}')
+            if not m:
+                continue
+            env.update(binds)
+            if case.guard is not None and not self.truth(self.eval(case.guard, env, mi), case.guard):
+                continue
+            self.exec_body(case.body, env, mi)
+            return
+
+    def match_pattern(self, p, v, binds, env, mi):
+        """True / False / None (undecidable)."""
+        if isinstance(p, ast.MatchAs):
+            if p.pattern is not None:
+                r = self.match_pattern(p.pattern, v, binds, env, mi)
+                if not r:
+                    return r
+            if p.name is not None:
+                binds[p.name] = v
+            return True
+        if isinstance(v, Opaque | SVar):
+            return None
+        if isinstance(p, ast.MatchValue):
+            r = self.compare(ast.Eq(), v, self.eval(p.value, env, mi), p)
+            return r if isinstance(r, bool) else None
+        if isinstance(p, ast.MatchSingleton):
+            return v is p.value
+        if isinstance(p, ast.MatchOr):
+            for sub in p.patterns:
+                r = self.match_pattern(sub, v, binds, env, mi)
+                if r is None or r:
+                    return r
+            return False
+        if isinstance(p, ast.MatchSequence):
+            if not isinstance(v, list | tuple) or any(isinstance(x, ast.MatchStar) for x in p.patterns):
+                return False if not isinstance(v, list | tuple) else None
+            if len(v) != len(p.patterns):
+                return False
+            for sub, x in zip(p.patterns, v, strict=True):
+                r = self.match_pattern(sub, x, binds, env, mi)
+                if not r:
+                    return r
+            return True
+        if isinstance(p, ast.MatchClass):
+            cls = self.eval(p.cls, env, mi)
+            r = self.model._isinstance(self, v, cls, p)
+            if r is not True:
+                return False if r is False else None  # Opaque: undecidable
+            if p.kwd_patterns or len(p.patterns) > 1:
+                return None
+            if p.patterns:
+                return self.match_pattern(p.patterns[0], v, binds, env, mi)
+            return True
+        return None
+
+    def ex_Yield(self, e, env, mi):
+        self.yielded.append(self.eval(e.value, env, mi) if e.value is not None else None)
+        return None
 
     def st_FunctionDef(self, st, env, mi):
         fi = FuncInfo(self.call_stack[-1].module if self.call_stack else mi.name, st.name, st)
@@ -668,7 +763,21 @@ class Interp:
             if v is not _MISSING:
                 return v
             raise AnalysisError(f'unknown attribute {obj.cls.name}.{attr} at {self.where(node)}')
+        if isinstance(obj, EnumMember):
+            if attr in ('name', 'value'):
+                return getattr(obj, attr)
+            meth = self.find_method(obj.cls, attr)
+            if meth is not None:
+                decs = meth.decorators()
+                if 'property' in decs:
+                    return self.call_function(meth, [], {}, bound=obj)
+                if 'classmethod' in decs or 'staticmethod' in decs:
+                    return FuncRef(meth)
+                return FuncRef(meth, bound=obj)
+            raise AnalysisError(f'unknown attribute {obj!r}.{attr} at {self.where(node)}')
         if isinstance(obj, ClassRef):
+            if self.concrete_enums and self.is_enum(obj.ci) and attr in self.enum_members(obj.ci):
+                return self.enum_members(obj.ci)[attr]
             meth = self.find_method(obj.ci, attr)
             if meth is not None:
                 return FuncRef(meth)
@@ -703,6 +812,22 @@ class Interp:
             return _PyBound(obj, attr, val)
         except AttributeError:
             raise AnalysisError(f'attribute {attr} of {type(obj).__name__} at {self.where(node)}') from None
+
+    @staticmethod
+    def is_enum(ci: ClassInfo) -> bool:
+        return any(b.split('.')[-1] in ('Enum', 'IntEnum', 'StrEnum') for b in ci.bases)
+
+    def enum_members(self, ci: ClassInfo) -> dict:
+        key = (ci.module, ci.name)
+        if key not in self._enum_cache:
+            cmi = self.repo.module(ci.module)
+            out = {}
+            for st in ci.node.body:
+                if isinstance(st, ast.Assign) and len(st.targets) == 1 and isinstance(st.targets[0], ast.Name) \
+                        and not st.targets[0].id.startswith('_'):
+                    out[st.targets[0].id] = EnumMember(ci, st.targets[0].id, self.eval(st.value, {}, cmi))
+            self._enum_cache[key] = out
+        return self._enum_cache[key]
 
     def class_attr(self, ci: ClassInfo, attr: str):
         stack = [ci]
@@ -790,7 +915,7 @@ class Interp:
                 return Opaque(f'{fn.name}(⊤)')
             try:
                 return fn.fn(*args, **kwargs)
-            except (RaiseSignal, ReturnSignal, AnalysisError):
+            except (RaiseSignal, ReturnSignal, AnalysisError, PassThrough):
                 raise
             except Exception as ex:  # noqa: BLE001
                 raise AnalysisError(f'concrete call {fn.name} failed at {self.where(node)}: {ex}') from None
@@ -812,8 +937,17 @@ class Interp:
         raise AnalysisError(f'call of {fn!r} at {self.where(node)}')
 
     def construct(self, ci: ClassInfo, args, kwargs, node):
-        if any(b.split('.')[-1] in ('Enum', 'IntEnum', 'StrEnum') for b in ci.bases):
-            return Opaque(f'{ci.name}(...) enum member')
+        if self.is_enum(ci):
+            if not self.concrete_enums:
+                return Opaque(f'{ci.name}(...) enum member')
+            if len(args) != 1 or isinstance(args[0], Opaque | SVar):
+                return Opaque(f'{ci.name}(⊤) enum member')
+            for m in self.enum_members(ci).values():
+                if m.value == args[0] and type(m.value) is type(args[0]) or (m.value == args[0] and isinstance(args[0], int | float)):
+                    return m
+            if isinstance(args[0], EnumMember) and args[0].cls is ci:
+                return args[0]
+            raise RaiseSignal('ValueError', node, self.where(node), (f'{args[0]!r} is not a valid {ci.name}',))
         obj = SObj(ci)
         init = self.find_method(ci, '__init__')
         if init is not None:
@@ -1016,6 +1150,8 @@ class Interp:
             return Opaque(f'{obj.why}[...]')
         if isinstance(obj, BoundModel):
             return self.model.bound_index(self, obj, key, node)
+        if isinstance(obj, ExtRef) and hasattr(self.model, 'ext_index'):
+            return self.model.ext_index(self, obj.path, key, node)
         if isinstance(obj, SObj):
             gi = self.find_method(obj.cls, '__getitem__')
             if gi is not None:
